@@ -237,6 +237,13 @@ impl<H: Hasher> BatchMerkleProof<H> {
                 i += 1;
             }
         }
+
+        // every node carried by the proof must have been used on the way to the root; otherwise,
+        // a proof with superfluous nodes (data that was never checked) would be accepted
+        if proof_pointers.iter().zip(self.nodes.iter()).any(|(&used, nodes)| used != nodes.len()) {
+            return Err(MerkleTreeError::InvalidProof);
+        }
+
         v.remove(&1).ok_or(MerkleTreeError::InvalidProof)
     }
 
